@@ -238,6 +238,44 @@ def _is_expected_exception(stmt: Statement, exc_type: type[BaseException]) -> bo
     )
 
 
+def _importable_name(exc_type: type[BaseException]) -> str:
+    """Return the name under which an exception class can be imported from its module.
+
+    A class nested in another class (``Parser.Error``) is not a module attribute; its
+    outermost owner (``Parser``) is.
+
+    Args:
+        exc_type: The exception class.
+
+    Returns:
+        The first component of the qualified name, or the plain name for classes
+        defined inside a function.
+    """
+    qualname = exc_type.__qualname__
+    if "<locals>" in qualname:
+        return exc_type.__name__
+    return qualname.split(".", 1)[0]
+
+
+def _exception_reference(exc_type: type[BaseException]) -> cst.BaseExpression:
+    """Build the expression that names an exception class in ``pytest.raises(...)``.
+
+    Args:
+        exc_type: The exception class.
+
+    Returns:
+        ``Name`` for a top-level class, ``Owner.Name`` for a class nested in a class.
+    """
+    qualname = exc_type.__qualname__
+    if "<locals>" in qualname:
+        return cst.Name(exc_type.__name__)
+    head, *rest = qualname.split(".")
+    expr: cst.BaseExpression = cst.Name(head)
+    for part in rest:
+        expr = cst.Attribute(value=expr, attr=cst.Name(part))
+    return expr
+
+
 class TestSuiteWriter:
     """Writes a suite of test cases as a single pytest-compatible Python file."""
 
@@ -358,7 +396,7 @@ class TestSuiteWriter:
                                     value=cst.Name("pytest"),
                                     attr=cst.Name("raises"),
                                 ),
-                                args=[cst.Arg(value=cst.Name(exc_type.__name__))],
+                                args=[cst.Arg(value=_exception_reference(exc_type))],
                             )
                         )
                     ],
@@ -522,7 +560,7 @@ class TestSuiteWriter:
         by_module: dict[str, list[str]] = {}
         for exc_type in used_exc_types:
             if exc_type.__module__ != "builtins":
-                by_module.setdefault(exc_type.__module__, []).append(exc_type.__name__)
+                by_module.setdefault(exc_type.__module__, []).append(_importable_name(exc_type))
         for mod in sorted(by_module):
             names = ", ".join(sorted(set(by_module[mod])))
             exc_import_stmts.append(cst.parse_statement(f"from {mod} import {names}\n"))
